@@ -131,7 +131,7 @@ pub fn c02_q_single_pair_empty() {
 }
 
 #[kani::proof]
-#[kani::unwind(6)]
+#[kani::unwind(10)]
 pub fn c02_q_extent_view() {
     let range: bool = kani::any();
     let x = if range { Extent::range(sym_ts()..sym_ts()) } else { Extent::point(sym_ts()) };
@@ -152,6 +152,29 @@ pub fn c02_t_and_depth3_erased() {
     let e: &dyn ErasedProps = &inner;
     let p = And::new(e, And::new(pair(4), Empty));
     coherent(&p, &POOL, 4);
+}
+
+/// Keys are `Str`s; sorted collections (BTreeMap<Str, V>, the macro-built arrays) are searched with the order of
+/// the key TEXT (`Borrow<str>`): `Str`'s Eq / Ord must be exactly `str`'s, for static, borrowed and mixed pairs.
+#[kani::proof]
+#[kani::unwind(6)]
+pub fn c02_q_str_order_is_text_order() {
+    use emit_core::str::Str;
+    const A: [u8; 4] = *b"ab\0~";
+    let x: [u8; 3] = [A[sym_key()], A[sym_key()], A[sym_key()]];
+    let y: [u8; 3] = [A[sym_key()], A[sym_key()], A[sym_key()]];
+    let nx: usize = kani::any();
+    let ny: usize = kani::any();
+    kani::assume(nx <= 3 && ny <= 3);
+    let sx = unsafe { core::str::from_utf8_unchecked(&x[..nx]) };
+    let sy = unsafe { core::str::from_utf8_unchecked(&y[..ny]) };
+    let (kx, ky) = (Str::new_ref(sx), Str::new_ref(sy));
+    assert!(kx.cmp(&ky) == sx.cmp(sy), "Str orders as its text");
+    assert!(kx.partial_cmp(&ky) == Some(sx.cmp(sy)));
+    assert!((kx == ky) == (sx == sy), "Str equality is text equality");
+    assert!((kx == *sy) == (sx == sy));
+    kani::cover!(nx < ny && sx > sy, "shorter but greater");
+    kani::cover!(sx == sy && nx == 2, "equal");
 }
 
 #[kani::proof]
